@@ -35,6 +35,21 @@ def ofVal : Val R → TranslatedPauli.PVal R
 def neglOf (x : TranslatedPauli.Ext R) : R → Bool := fun c => x.isclose c 0
 def recipOf (x : TranslatedPauli.Ext R) : R → Option R := fun y => x.truediv 1 y
 
+/-- LAW of the externals assumed (explicitly) by the ties of `__truediv__`: a number that Python's `==` calls equal to 0
+    (`x.num_eq c 0`: the guard `if isinstance(other, Number) and other == 0: raise ZeroDivisionError` of the repaired source) has no
+    quotient `1.0 / c` either.  It holds of Python numbers (0, 0.0, 0j, False: `1.0 / c` raises ZeroDivisionError); the guard only
+    extends ZeroDivisionError to the numpy zeros, for which `1.0 / c` is inf – these are outside the model's numbers.  Under the law
+    the guarded source and the unguarded one (no `num_eq` in the rendering, the hypothesis is unused) have the same tie.
+    SATISFIABLE: `ext_zeroDivLaw` of OQ/Generated/TranslatedDriverT7.lean proves it of the externals the self-check runs with, and
+    `zeroDivLaw_sat` below of a family over every ring with decidable equality. -/
+def ZeroDivLaw (x : TranslatedPauli.Ext R) : Prop := ∀ c : R, x.num_eq c 0 = true → x.truediv 1 c = none
+
+theorem zeroDivLaw_sat [DecidableEq R] (isc allc : R → R → Bool) (quot : R → R → R) (it : List Nat → List Nat) :
+    ZeroDivLaw (⟨isc, allc, fun a b => if b = 0 then none else some (quot a b), fun a b => decide (a = b), it⟩ : TranslatedPauli.Ext R) := by
+  intro c h
+  have hc : c = 0 := of_decide_eq_true h
+  simp [hc]
+
 @[simp] theorem ofTerm_ops (t : Term R) : (ofTerm t)._ops = up t.ops := rfl
 @[simp] theorem ofTerm_coeff (t : Term R) : (ofTerm t).coefficient = t.coeff := rfl
 @[simp] theorem up_nil : up [] = [] := rfl
